@@ -28,6 +28,25 @@ EXHAUSTIVE_FIXED = [
     ([[{"a": [1]}, {"a": [2]}]], "$..a"),
 ]
 
+# a descendant segment applied to SEVERAL input nodes (RFC 9535 2.1.2: the segment's result is the concatenation, in
+# input order, of the results for each input node), the inputs' subtrees of different depths: every script walked,
+# every outcome judged against the permitted set
+PERMITTED_FIXED = [
+    ({"a": [{"x": {"b": 1}}, {"b": 2}]}, "$.a[*]..b"),
+    ([[[1]], [[2]]], "$[*]..[0]"),
+    ([[[1]], [2]], "$.*..*"),
+    ([[[1], 2], [[3]]], "$[*]..*"),
+    ([{"x": {"a": 1}}, {"a": 2}], "$[0,1]..a"),
+    ([{"x": {"a": 1}}, {"a": 2}], "$[1,0]..a"),
+    ([{"x": {"a": 1}}, {"a": 2}], "$[0,0]..a"),
+    ([[[1]], [2]], "$[*]..[?@]"),
+    ([[[[1]], [2]]], "$.*.*..*"),
+    ([[[1]], [[2]]], "$[::-1]..[0]"),
+    ({"a": [[[1]], [2]]}, "$..a[*]..*"),
+    ([[{"k": {"k": 1}}], [{"k": 2}]], "$[*]..k"),
+    ([[[1]], [2]], "$[?@]..*"),
+]
+
 
 def node_count(v):
     if isinstance(v, list):
@@ -136,6 +155,18 @@ def explore_c17(rng, tier, res, deep=False):
         expect.append(("__outcomes__", q, doc, None))
         sets.append((q, doc, {r for _ch, r in leaves}, complete, len(expect) - 1))
         fixed_idx.add(len(sets) - 1)
+        res.count("scripts", len(leaves))
+    for doc, q in PERMITTED_FIXED:
+        c = env.compile(q)
+        a = real.ast_query(c)
+        leaves, complete = choice_tree(env, c, doc, 5000)
+        ed = wire.enc_json(doc)
+        for ch, r in leaves[:: max(1, len(leaves) // 40)]:
+            lines.append(f"nd.find\t{eenv}\t{a}\t{ed}\t{ch.wire()}")
+            expect.append((r, q, doc, ch.wire()))
+        lines.append(f"rfc.outcomes\t{eenv}\t{a}\t{ed}")
+        expect.append(("__outcomes__", q, doc, None))
+        sets.append((q, doc, {r for _ch, r in leaves}, False, len(expect) - 1))
         res.count("scripts", len(leaves))
     # the known-finding witness and larger inputs with sampled scripts
     big_cases = [D24_WITNESS] + [(rng.choice(queries), doc_with_all_kinds(rng, 3)) for _ in range(20 if tier != "thorough" else 300)]
